@@ -17,6 +17,12 @@ use std::{
 /// (from, to, phase, k-th message of that (from,to,phase), bytes) -> replacement (None = swallow the message)
 pub type Mutator = Box<dyn FnMut(usize, usize, &str, usize, Vec<u8>) -> Option<Vec<u8>>>;
 
+/// A RUSHING adversary: (receiver, sender, phase, bytes) -> bytes, applied when the receiver takes the message out of the queue, i.e. as late
+/// as delivery. The rewriter may use everything that has been SENT by then (it sees all messages through the send-side `Mutator`).
+pub type RecvRewrite = Box<dyn FnMut(usize, usize, &str, Vec<u8>) -> Vec<u8>>;
+thread_local! { pub static RECV_REWRITE: RefCell<Option<RecvRewrite>> = const { RefCell::new(None) }; }
+pub fn set_recv_rewrite(f: Option<RecvRewrite>) { RECV_REWRITE.with(|r| *r.borrow_mut() = f); }
+
 #[derive(Clone, Debug, PartialEq)]
 pub enum Ev { Send { from: usize, to: usize, phase: String, len: usize }, Recv { at: usize, from: usize, phase: String, len: usize }, RecvIssue { at: usize, from: usize }, SendDone { from: usize, to: usize } }
 
@@ -76,6 +82,7 @@ impl Future for RecvFut<'_> {
         if from >= n.q.len() { *n.outstanding_recv.get_mut(&(me, from)).unwrap() -= 1; return Poll::Ready(Err(Closed)); }
         match n.q[from][me].pop_front() {
             Some(d) => {
+                let d = RECV_REWRITE.with(|r| match r.borrow_mut().as_mut() { Some(f) => f(me, from, &self.phase, d.clone()), None => d.clone() });
                 n.ops += 1; *n.outstanding_recv.get_mut(&(me, from)).unwrap() -= 1;
                 let ph = self.phase.clone(); n.events.push(Ev::Recv { at: me, from, phase: ph, len: d.len() });
                 n.wake_send(from, me);
